@@ -1,0 +1,33 @@
+//go:build verif
+
+package p2c
+
+// Contracts for the deductive verifier in /verif (govc). Comment-only file: adds no code.
+
+// The Done callback built for a picked connection c.
+//@ func (*p2cPicker).buildDoneFunc$1
+//@   prop C14
+//@   opaque logStats
+//@   requires c != nil && p != nil && p.stamp != nil
+//@   requires c.success <= 1000 && c.lag < 4503599627370496
+//@   let lagNow = max(0, ret(timex.Now) - start)
+//@   let ok = info.Err == nil || ret(Acceptable)
+//@   observe OLag = old(c.lag)
+//@   observe LagNow = lagNow
+//@   observe NewLag = c.lag
+//@   observe W = ret(math.Exp)
+//@   observe OSuccess = old(c.success)
+//@   observe NewSuccess = c.success
+//@   observe Start = start
+//@   observe Now = ret(timex.Now)
+//@   observe OLast = old(c.last)
+//@   observe Ok = ok
+//@   replay p2c_done
+//@   replay-assume old(c.success) <= 1000 && old(c.lag) <= 1000000 && ret(timex.Now) <= 100000000000 && old(c.last) >= 0
+//@   ensures [inflight] c.inflight == old(c.inflight) - 1
+//@   ensures [success-range] 0 <= c.success && c.success <= 1000
+//@   ensures [success-up] ok ==> c.success >= old(c.success)
+//@   ensures [success-down] !ok ==> c.success <= old(c.success)
+//@   ensures [lag-between] min(old(c.lag), lagNow) <= c.lag && c.lag <= max(old(c.lag), lagNow)
+//@   ensures [lag-first] old(c.lag) == 0 ==> c.lag == lagNow
+//@   ensures [last] c.last == ret(timex.Now)
